@@ -26,9 +26,8 @@ type c04in struct {
 	// expected phase by the property text: 0 = 425, 1 = 200, 2 = 410, 4 = 404; 3 = 200 or 410 (the
 	// property does not fix the instant at which an old segment goes away beyond "at least tsbd")
 	Want int `json:"want_phase"`
-	// Edge names the instants where float64 rounding in CheckTimeValidity can move the decision by
-	// 1 ms: "first-ato" = exactly the availability instant with a finite non-zero offset,
-	// "first" = within 2 ms of it, "gone" = within 2 ms of A+tsbd+margin
+	// Edge names the instants within 2 ms of a transition that is not on the millisecond grid
+	// (the code compares whole microseconds; the exact model is not compared there)
 	Edge string `json:"edge,omitempty"`
 }
 
@@ -257,27 +256,31 @@ func run(c *lib.Ctx) error {
 			if t.cfg.StartS > 0 {
 				nows = append(nows, t.cfg.StartS*1000-1)
 			}
-			tsbdEnd := floorRat(new(big.Rat).Add(A, new(big.Rat).SetInt64(t.cfg.EffTsbd()*1000)))
+			onGrid := A.IsInt()
 			wantOf = func(now int64) int {
 				switch {
 				case now < first:
 					return 0
 				case now > goneAfter+1:
 					return 2
-				case now > tsbdEnd && now >= goneAfter-1:
+				case now > goneAfter:
+					if onGrid {
+						return 2
+					}
+					return 3
+				case now >= goneAfter-1 && !onGrid:
 					return 3
 				}
 				return 1
 			}
-			onGrid := A.IsInt()
 			edgeOf = func(now int64) string {
 				switch {
-				case now == first && t.cfg.AtoMS > 0:
-					return "first-ato"
-				case now >= first-2 && now <= first+2 && (t.cfg.AtoMS > 0 || !onGrid):
-					return "first"
+				case onGrid:
+					return ""
+				case now >= first-2 && now <= first+2:
+					return "first-offgrid"
 				case now >= goneAfter-2 && now <= goneAfter+2:
-					return "gone"
+					return "gone-offgrid"
 				}
 				return ""
 			}
